@@ -135,6 +135,17 @@ Proof.
   unfold two64 in *. lia.
 Qed.
 
+Lemma values_gpu_nonempty : forall v rho h m c d,
+  reread (count_tree v h) = Some c -> reread (value_tree h (Var m)) = Some d ->
+  v_noop_negative v = false -> - two64 < eval rho c < 0 ->
+  values_gpu v rho h m <> Some [].
+Proof.
+  intros v rho h m c d Ec Ed Hv Hn. unfold values_gpu. rewrite Ec, Ed.
+  pose proof (launch_blocks_negative v (eval rho c) Hv Hn) as L.
+  remember (launch_blocks v (eval rho c)) as n eqn:En. clear En.
+  destruct n as [|n]; [lia|]. cbn [seq map]. discriminate.
+Qed.
+
 Lemma accepted_direction : forall h, accepted fixed h = true -> direction_ok h = true.
 Proof. unfold accepted. cbn [v_reject_mismatch fixed]. intros h H. apply andb_prop in H. tauto. Qed.
 
